@@ -200,12 +200,32 @@ Definition v_stats (t : stats) : list val :=
 Definition insp_opts (v : val) : ropts :=
   mkropts (vbool (vnth 0 v)) (vN (vnth 1 v)) (vN (vnth 2 v)) false.
 
-Definition run_inspect (input : val) : val :=
+(* section-reader reuse (input field 7): each step opens a Reader on the current bytes and continues
+   on its DataReader (10+mode) or IndexReader (20+mode) after that value was consumed as a stream in
+   some way (mode).  A DataReader / IndexReader is a positioned view of [base+off, ...) of its parent:
+   what the next Reader sees does not depend on the mode (InspectViews.v), so the model just narrows
+   the bytes. *)
+Inductive reuse_res := ReuseOk (eff : bytes) | ReuseErr (e : err) | ReuseNil.
+Fixpoint reuse_eff (hdr : bytes -> option (list bytes * N)) (o : ropts) (steps : list N) (eff : bytes)
+  : reuse_res :=
+  match steps with
+  | [] => ReuseOk eff
+  | st :: steps' =>
+    match new_reader hdr o eff with
+    | Err e => ReuseErr e
+    | Ok rd =>
+      if st <? 20 then reuse_eff hdr o steps' (data_window rd eff)
+      else if (r_version rd =? 1) || negb (has_index (r_hdr rd)) then ReuseNil
+      else reuse_eff hdr o steps' (drop (h_ioff (r_hdr rd)) eff)
+    end
+  end.
+
+Definition run_inspect_on (input : val) (file : bytes) : val :=
   let o := insp_opts (vnth 0 input) in
-  let file := vB (vnth 1 input) in
   let hok := hok_lookup (vL (vnth 2 input)) in
   let hdr := hdr_lookup (vL (vnth 3 input)) in
   let validate := vbool (vnth 4 input) in
+  let has_reuse := negb (length (vL (vnth 7 input)) =? 0)%nat in
   let scan :=
     match br_read_all hok hdr o file with
     | Err e => VL [VT "openerr"; v_err e]
@@ -236,7 +256,8 @@ Definition run_inspect (input : val) : val :=
                  | RInspect r => v_insp r
                  end in
   match new_reader hdr o file with
-  | Err e => VL [VL [VT "newerr"; v_err e]; scan; VL [VT "none"]; tscan; VL []]
+  | Err e => VL [VL [VT "newerr"; v_err e]; scan; VL [VT "none"]; tscan; VL [];
+                 if has_reuse then VL [VT "newerr"; v_err e] else VL [VT "none"]]
   | Ok rd =>
     let hist := rrun hok hdr o file (fresh_reader rd) ops in
     VL [match fst (rstep hok hdr o file (snd hist) (OInspect validate)) with
@@ -251,7 +272,26 @@ Definition run_inspect (input : val) : val :=
           end
         else VL [VT "none"];
         tscan;
-        VL (map v_out (fst hist))]
+        VL (map v_out (fst hist));
+        (* 6th part: the same on a fresh view of the bytes -- the model's answer does not depend on
+           the view, so it is the first part again *)
+        if has_reuse then v_insp (inspect hok hdr o rd file validate) else VL [VT "none"]]
+  end.
+
+
+Definition insp_eff (input : val) : bytes :=
+  match reuse_eff (hdr_lookup (vL (vnth 3 input))) (insp_opts (vnth 0 input))
+                  (map vN (vL (vnth 7 input))) (vB (vnth 1 input)) with
+  | ReuseOk eff => eff
+  | _ => vB (vnth 1 input)
+  end.
+
+Definition run_inspect (input : val) : val :=
+  match reuse_eff (hdr_lookup (vL (vnth 3 input))) (insp_opts (vnth 0 input))
+                  (map vN (vL (vnth 7 input))) (vB (vnth 1 input)) with
+  | ReuseOk eff => run_inspect_on input eff
+  | ReuseErr e => VL [VL [VT "reuseerr"; v_err e]]
+  | ReuseNil => VL [VL [VT "reusenil"]]
   end.
 
 Definition stat_names : list string :=
@@ -273,7 +313,10 @@ Definition prop_inspect (input obs : val) : val :=
   let insp := vnth 0 obs in
   let scan := vnth 1 obs in
   let idx := vnth 2 obs in
-  if is_tag (vnth 0 insp) "newerr" then VT "ok"
+  if is_tag (vnth 0 insp) "reuseerr" || is_tag (vnth 0 insp) "reusenil" then VT "ok"
+  else if negb (is_tag (vnth 0 (vnth 5 obs)) "none") && negb (val_eqb 60 insp (vnth 5 obs))
+  then VL [VT "FAIL"; VT "reused-view-differs-from-fresh-view"]
+  else if is_tag (vnth 0 insp) "newerr" then VT "ok"
   else if existsb (fun p => (vN (fst p) =? (if validate then 5 else 4)) && negb (val_eqb 60 (snd p) insp))
                   (combine (vL (vnth 6 input)) (vL (vnth 4 obs)))
   then VL [VT "FAIL"; VT "inspect-depends-on-history"]
@@ -292,7 +335,7 @@ Definition prop_inspect (input obs : val) : val :=
     else if insp_ok && t_clean then
       let version := vN (vnth 1 tscan) in
       let hdrv := if version =? 2
-                  then match read_v2hdr (drop 11 (vB (vnth 1 input))) with
+                  then match read_v2hdr (drop 11 (insp_eff input)) with
                        | Ok (h, _) => h
                        | Err _ => zero_v2hdr
                        end
@@ -331,7 +374,7 @@ Definition prop_inspect (input obs : val) : val :=
       let roots := vcids (vnth 2 scan) in
       let blocks := vblocks (vnth 0 (vnth 3 scan)) in
       let hdrv := if version =? 2
-                  then match read_v2hdr (drop 11 (vB (vnth 1 input))) with
+                  then match read_v2hdr (drop 11 (insp_eff input)) with
                        | Ok (h, _) => h
                        | Err _ => zero_v2hdr
                        end
